@@ -62,6 +62,7 @@ def run(ck):
     quick = ck.tier == "quick"
     rng = random.Random(ck.seed)
     ck.mc("CancelOnShutdown", "CancelOnShutdown.mc.cfg", timeout=3000)
+    ck.mc("CancelOnShutdown", "CancelOnShutdown.mc2.cfg", timeout=3000)      # a completion at the very instant of shutdown()
     behs = tlc.simulate_behaviours("CancelOnShutdown", "CancelOnShutdown.sim.cfg", 60 if quick else 500, 60,
                                    ck.seed + 1, timeout=600)
     ck.replay_behaviours(behs, convert, project, TRACE, unordered=("CancelArrived",))
